@@ -63,6 +63,7 @@ var (
 
 func init() {
 	scope.SetSynchronized(false)
+	TheHistory.SetLimit(1000) // initial value that the user can replace by setting *repl-history-limit*
 	if ev := os.Getenv("XDG_CONFIG_HOME"); 0 < len(ev) {
 		ev += "/slip"
 		stashLoadPath = append(slip.List{slip.String(ev)}, stashLoadPath...)
@@ -167,7 +168,6 @@ func Run() {
 		_, _ = scope.Get(slip.Symbol(stdOutput)).(io.Writer).Write([]byte("\nBye\n"))
 		replReader.stop()
 	}()
-	TheHistory.SetLimit(1000) // initial value that the user can replace by setting *repl-history-limit*
 	TheHistory.Load(historyFilename)
 	initStash()
 
